@@ -62,6 +62,11 @@ int LLVMFuzzerInitialize(int *argc, char ***argv) {
     fd1 = memfd_create("fz1", 0);
     fd2 = memfd_create("fz2", 0);
     zck_set_log_level(ZCK_LOG_NONE);
+    if(getenv("FZ_DEBUG_LOG")) {
+        /* message formatting sees the hostile bytes too (what the tools do with -vv); output discarded */
+        int nfd = open("/dev/null", O_WRONLY);
+        if(nfd >= 0) { zck_set_log_fd(nfd); zck_set_log_level(ZCK_LOG_DEBUG); }
+    }
     return 0;
 }
 
